@@ -6,7 +6,8 @@
      2 mapseq : [2; variant; max; ops; counts; outcomes]                      ops = [0] open | [1;k] close k-th arrival
      3 quota  : [3; variant; max; pre; n; sched; counts; outcomes]            see quota_check
      4 qfault : [4; policy; max; nrecs; trace; outcomes]                      see qfault_check
-     5 regsched : [5; max; ops; final keys]                                   see regsched_check *)
+     5 regsched : [5; max; ops; final keys]                                   see regsched_check
+     6 qlist  : [6; max; pre; writes; counted; existing; extras; accepted]    see qlist_check *)
 From TX Require Import Base.Val Model.Limits.
 From Coq Require Import ZArith.
 
@@ -221,6 +222,29 @@ Definition qfault_check (v : tval) : bool :=
   && Nat.eqb (length (filter (N.eqb 1) tr)) (vnat (vnth 3 v))
   && Nat.eqb (length (filter (N.eqb 0) tr)) 1.
 
+(* ---- one Create of the client under test with a List run at every write it parks at, then sequential creates:
+   [6; max; pre; writes; counted_after; existing_after; extras; accepted_extras]
+   writes = class of every parked write of the Create in order (0 other, 1 by-id record, 2 index append) *)
+Fixpoint i_replay (s : ish * list ipc) (writes : list N) : ish * list ipc :=
+  match writes with
+  | [] => s
+  | w :: ws =>
+      let s1 := sys_step _ _ (istep RecordFirst) s 1 in                 (* the List at this park point *)
+      let s2 := match w with 1 | 2 => sys_step _ _ (istep RecordFirst) s1 0 | _ => s1 end%N in
+      i_replay s2 ws
+  end.
+Definition qlist_check (v : tval) : bool :=
+  let max := vnat (vnth 1 v) in
+  let pre := vnat (vnth 2 v) in
+  let writes := map vn (vl (vnth 3 v)) in
+  let pre_ids := map (fun k => N.of_nat (100 + k)) (seq 0 pre) in
+  let s := i_replay ({| i_stored := pre_ids; i_index := pre_ids |}, [ICreate 7 0; IList (length writes)]) writes in
+  let counted := i_counted (fst s) in
+  (* the code writes the record before the index entry *)
+  list_eqb (filter (fun w => N.eqb w 1 || N.eqb w 2) writes) [1; 2]%N
+  && Nat.eqb counted (vnat (vnth 4 v)) && Nat.eqb (length (i_stored (fst s))) (vnat (vnth 5 v))
+  && Nat.eqb (Nat.min (vnat (vnth 6 v)) (max - counted)) (vnat (vnth 7 v)).
+
 Definition check (v : tval) : bool :=
   match vn (vnth 0 v) with
   | 0 => server_check v
@@ -229,6 +253,7 @@ Definition check (v : tval) : bool :=
   | 3 => quota_check v
   | 4 => qfault_check v
   | 5 => regsched_check v
+  | 6 => qlist_check v
   | _ => false
   end%N.
 
